@@ -83,6 +83,12 @@ func (c *Ctx) ruleSessionOptionsRefreshed(rule string, only map[string]bool, min
 						note(ir.FieldOf(fa).Name(), b, x.Pos())
 					}
 				}
+				// a setter of the same object: the fields it writes on every one of its paths
+				if callee != nil && callee.Blocks != nil && c.P.InModule(callee) && callee.Signature.Recv() != nil && len(x.Call.Args) > 0 && isParamValue(x.Call.Args[0], recv) {
+					for _, f := range mustWriteFields(callee) {
+						note(f, b, x.Pos())
+					}
+				}
 			}
 		}
 	}
@@ -151,4 +157,60 @@ func isParamValue(v ssa.Value, p *ssa.Parameter) bool {
 		}
 	}
 	return n == 1 && good
+}
+
+// mustWriteFields: the fields of its receiver that a method writes (plain store or atomic .Store) on every path
+// from entry to exit.
+func mustWriteFields(fn *ssa.Function) []string {
+	if len(fn.Params) == 0 {
+		return nil
+	}
+	recv := fn.Params[0]
+	writes := map[string]map[*ssa.BasicBlock]bool{}
+	note := func(name string, b *ssa.BasicBlock) {
+		if writes[name] == nil {
+			writes[name] = map[*ssa.BasicBlock]bool{}
+		}
+		writes[name][b] = true
+	}
+	for _, b := range fn.Blocks {
+		for _, in := range b.Instrs {
+			switch x := in.(type) {
+			case *ssa.Store:
+				if fa, ok := x.Addr.(*ssa.FieldAddr); ok && isParamValue(fa.X, recv) {
+					note(ir.FieldOf(fa).Name(), b)
+				}
+			case *ssa.Call:
+				callee := x.Call.StaticCallee()
+				if callee != nil && callee.Name() == "Store" && len(x.Call.Args) > 0 {
+					if fa, ok := x.Call.Args[0].(*ssa.FieldAddr); ok && isParamValue(fa.X, recv) {
+						note(ir.FieldOf(fa).Name(), b)
+					}
+				}
+			}
+		}
+	}
+	var out []string
+	for name, blocks := range writes {
+		seen := map[*ssa.BasicBlock]bool{}
+		work := []*ssa.BasicBlock{fn.Blocks[0]}
+		escaped := false
+		for len(work) > 0 && !escaped {
+			b := work[0]
+			work = work[1:]
+			if seen[b] || blocks[b] {
+				continue
+			}
+			seen[b] = true
+			if ir.IsExit(b) {
+				escaped = true
+			}
+			work = append(work, b.Succs...)
+		}
+		if !escaped {
+			out = append(out, name)
+		}
+	}
+	sort.Strings(out)
+	return out
 }
